@@ -43,6 +43,10 @@ def name_of(mc, proto):
     return None
 
 
+def PRE_OF(mc, k):
+    return (1 << 30) | k
+
+
 def execute(mc, row, m, by_name, seed):
     from minecraft.networking.connection import Connection
     rng = random.Random(seed)
@@ -284,6 +288,48 @@ def run(chk):
             if n in (5, 900):
                 chk.sample({'scenario': {k: row[k] for k in ('mode', 'allowed', 'initial', 'srv', 'hs', 'hp')},
                             'expected': {k: row[k] for k in ('tcp', 'frames', 'outcome')}, 'map': m})
+    # ---- the same scenarios after the table of supported versions has been changed at run time, the documented way
+    #      (edit SUPPORTED_MINECRAFT_VERSIONS, call initglobals()): one known version becomes supported, one is withdrawn
+    saved = dict(mc.SUPPORTED_MINECRAFT_VERSIONS)
+    n_rt = 0
+    try:
+        known_names = {v: k for k, v in mc.KNOWN_MINECRAFT_VERSIONS.items()}
+        newly = PRE_OF(mc, 9)                                   # known, not supported at import
+        withdrawn = 578
+        assert newly in mc.KNOWN_PROTOCOL_VERSIONS and newly not in mc.SUPPORTED_PROTOCOL_VERSIONS
+        for k_, v_ in list(mc.SUPPORTED_MINECRAFT_VERSIONS.items()):
+            if v_ == withdrawn:
+                del mc.SUPPORTED_MINECRAFT_VERSIONS[k_]
+        mc.SUPPORTED_MINECRAFT_VERSIONS[known_names[newly]] = newly
+        mc.initglobals()
+        sup = list(mc.SUPPORTED_PROTOCOL_VERSIONS)
+        known = mc.KNOWN_PROTOCOL_VERSIONS
+        s1 = 404
+        m_rt = {'s1': s1, 's2': newly, 's3': 757, 'k': withdrawn, 'k0': 1, 'x': 9999}
+        srt = sorted((m_rt[t] for t in ('s1', 's2', 's3')), key=known.index)
+        m_rt['s1'], m_rt['s2'], m_rt['s3'] = srt
+        assert all(m_rt[t] in sup for t in ('s1', 's2', 's3')) and m_rt['k'] not in sup
+        for i, row in enumerate(rows):
+            if (i + chk.seed) % (7 if chk.tier == 'quick' else 2):
+                continue
+            m = dict(m_rt)
+            if not row['allowed']:
+                m['s3'] = max(sup, key=known.index)
+            run_, obs = execute(mc, row, m, False, chk.seed * 1000033 + i)
+            n_rt += 1
+            chk.traces += 1
+            chk.case(('scenario-rt', i), nontrivial=row['outcome'] != 'ValueError')
+            v = judge(mc, row, m, run_, obs, False)
+            if v:
+                chk.violation(v[0] + ':after-run-time-update', 'after %d was made supported and %d withdrawn at run time: scenario mode=%s '
+                              'allowed=%r initial=%r server=%r with versions %r: %s'
+                              % (newly, withdrawn, row['mode'], row['allowed'], row['initial'], row['srv'],
+                                 {k: m[k] for k in ('s1', 's2', 's3', 'k', 'x')}, v[1]), {'row': row, 'map': m})
+    finally:
+        mc.SUPPORTED_MINECRAFT_VERSIONS.clear()
+        mc.SUPPORTED_MINECRAFT_VERSIONS.update(saved)
+        mc.initglobals(use_known_records=True)
+    chk.extra['executions_after_run_time_update'] = n_rt
     chk.extra['scenarios'] = len(rows)
     chk.extra['executions'] = n
     chk.extra['protocol_maps'] = ms
